@@ -76,6 +76,12 @@ def accessors(rep, cfg, r, rng):
     S, N, n, dt = r["S"], r["N"], r["nsteps"], r["S"].dt
     st, XS = r["stats"], r["XS"]
     thr = S.solidificationThreshold
+    if (XS < 0).any() or (XS >= 1).any():
+        # a trajectory that leaves the admissible range (ice fraction below 0 or above 1: a configuration outside the stability range, C06): "has
+        # ice" then means different things for the recorded statistics (nucleated at some time) and for the stored states (sigma > 0); the
+        # accessor clauses are stated for admissible trajectories only
+        rep.count("accessor clauses skipped: ice fraction leaves [0,1)")
+        return
     mask = np.asarray(S._storageMask, bool)
     late = np.nan_to_num(st["t_nucleation"], nan=0) > (n - 1) * dt + 1e-9
     exp_tn = np.where(mask & ~late, st["t_nucleation"], np.nan)
